@@ -74,6 +74,10 @@ def skel_obj(bones):
 def valid(bones=2):
     return HEAD + std_types() + root_objs() + skel_obj(bones) + pint(7)
 
+import os
+NEST = int(os.environ.get('HVK_NEST', 30000))
+CHAIN_T = int(os.environ.get('HVK_CHAIN_T', 120000))
+CHAIN_O = int(os.environ.get('HVK_CHAIN_O', 100000))
 W = {}
 def w(name):
     def deco(f):
@@ -224,16 +228,35 @@ def _(): return binding_file(duration_type=2)
 def _():
     # class `a` has one member: a struct array of `a`; an empty array whose existence bits say
     # "present" 200 000 times in a row: one byte and one stack frame per level
-    v = HEAD + htype('a', 0, [('v', 0x19, 'a')]) + pint(4) + pint(1) + b'\x01' + pint(0) + b'\x01' * 200000
+    v = HEAD + htype('a', 0, [('v', 0x19, 'a')]) + pint(4) + pint(1) + b'\x01' + pint(0) + b'\x01' * NEST
     return sklb(v)
+def valid_plus(extra_types, extra_objs):
+    """the valid two-bone file with more types (index 6..) and more objects behind the skeleton"""
+    return HEAD + std_types() + extra_types + root_objs() + skel_obj(2) + extra_objs + pint(7)
+def nesting(k):
+    # an unrelated object whose struct array nests k levels below the outermost one
+    return sklb(valid_plus(htype('a', 0, [('v', 0x19, 'a')]), pint(4) + pint(6) + b'\x01' + pint(0) + b'\x01' * k + b'\x00'))
+@w('struct-nesting-32')
+def _(): return nesting(32)        # accepted (MAX_ARRAY_DEPTH)
 @w('struct-nesting-33')
-def _():
-    v = HEAD + htype('a', 0, [('v', 0x19, 'a')]) + pint(4) + pint(1) + b'\x01' + pint(0) + b'\x01' * 33 + b'\x00' + pint(7)
-    return sklb(v)
-@w('struct-nesting-34')
-def _():
-    v = HEAD + htype('a', 0, [('v', 0x19, 'a')]) + pint(4) + pint(1) + b'\x01' + pint(0) + b'\x01' * 34 + b'\x00' + pint(7)
-    return sklb(v)
+def _(): return nesting(33)        # rejected
+def elements(slack):
+    # an unrelated object with an array of L elements of a class with k member-less struct members:
+    # L * (1 + k) struct elements; the byte array behind it tunes the size of the tag file to
+    # (number of struct elements of the file) + slack
+    k, L = 7, 100
+    t = htype('e', 0, []) + htype('b', 0, [('m%d' % i, 9, 'e') for i in range(k)]) + htype('a', 0, [('v', 0x19, 'b'), ('pad', 0x11, None)])
+    total = 1 + 2 + L * (1 + k)
+    for pad in range(0, 4000):
+        o = pint(4) + pint(8) + b'\x03' + pint(L) + b'\x7f' + pint(pad) + b'\x00' * pad
+        v = valid_plus(t, o)
+        if len(v) == total + slack:
+            return sklb(v)
+    raise Exception('no pad')
+@w('struct-elements-exact')
+def _(): return elements(0)        # as many struct elements as bytes: accepted
+@w('struct-elements-one-more')
+def _(): return elements(-1)       # one byte fewer: rejected
 @w('struct-elements-multiplied')
 def _():
     # class `e` has no members; class `b` has 200 struct members of class `e`; one array of 1000 `b`s:
@@ -250,7 +273,7 @@ def _():
 @w('type-chain-deep')
 def _():
     v = HEAD
-    n = 120000
+    n = CHAIN_T
     v += htype('a', 0, [])
     body = b''.join(pint(2) + pint(-2) + pint(0) + pint(i) + pint(0) for i in range(1, n))
     # one object of the last type: `members()` walks the whole chain
@@ -258,7 +281,7 @@ def _():
 @w('object-chain-backward')
 def _():
     # object k refers to object k-1: the last one owns the whole chain
-    n = 150000
+    n = CHAIN_O
     v = HEAD + htype('a', 0, [('p', 8, 'a')])
     v += pint(4) + pint(1) + b'\x00'
     body = b''.join(pint(4) + pint(1) + b'\x01' + pint(k) for k in range(1, n))
